@@ -34,6 +34,22 @@ const NOISE: &[&str] = &[
     "?",
     "-",
     "0",
+    // options this engine does not have, in every shape a GUI sends them (a value, no value,
+    // an empty value, a name of several words, nothing at all)
+    "setoption name Hash value 16",
+    "setoption name Threads value 4",
+    "setoption name Clear Hash",
+    "setoption name SyzygyPath value",
+    "setoption name SyzygyPath value /a b/c",
+    "setoption name UCI_Chess960 value false",
+    "setoption name Ponder value",
+    "setoption name",
+    "setoption value",
+    "setoption",
+    "setoption name value",
+    "setoption name DebugLogLevel value",
+    "setoption name DebugLogLevel value Warn",
+    "setoption value 1 name Hash",
 ];
 
 /// unknown tokens (safe anywhere inside go)
@@ -601,18 +617,19 @@ pub fn run_c16(seed: u64, run: u64) -> Acc {
                 let og = workload::gen_game(&mut rng, 20);
                 b.line(&sa::position_line(&og.start, &og.moves, &mut rng));
                 shape.push('p');
-                let mut p: Pos = og.final_pos();
+                let p: Pos = og.final_pos();
+                let mut white = p.white_to_move;
                 for _ in 0..1 + rng.below(3) {
                     if p.is_terminal() {
                         break;
                     }
-                    b.line(&sa::gen_go(&mut rng, true, p.white_to_move));
+                    // (consecutive go commands continue from the engine's own reply, which no
+                    // model predicts - nor needs to: any well-formed traffic may precede R)
+                    b.line(&sa::gen_go(&mut rng, true, white));
+                    white = !white;
                     n_go_prefix += 1;
                     shape.push('g');
-                    // the model does not know the engine's answer; stop consecutive go here
-                    break;
                 }
-                let _ = &mut p;
             }
         }
         if rng.chance(1, 4) {
@@ -674,6 +691,10 @@ pub fn run_c16(seed: u64, run: u64) -> Acc {
         if !timed {
             if x.bestmove != y.bestmove {
                 v(format!("C16/zero-slice/{}", what), format!("{} then {}: {:?} vs {:?}", pos_line, go_line, x.bestmove, y.bestmove), &mut acc);
+            } else if x.infos.is_empty() != y.infos.is_empty() {
+                // the reply is a function of X and the go parameters alone: a request that is
+                // answered at once in one session cannot be searched in another
+                v(format!("C16/zero-slice/searched-in-one-session-only/{}", what), format!("{} then {}: {} vs {} reported improvements", pos_line, go_line, x.infos.len(), y.infos.len()), &mut acc);
             }
         } else {
             let k = x.infos.len().min(y.infos.len());
